@@ -42,6 +42,8 @@ type frame struct {
 	phitemps         []value
 	depth            int
 	skipPhis         bool // phis of fr.block were assigned by if-conversion
+	idx              int  // index (in fr.block.Instrs) of the instruction being executed
+	resumeAt         int  // idx+1 of the instruction at which to resume this block (0 = none; segment mode)
 }
 
 func (fr *frame) get(key ssa.Value) value {
@@ -79,6 +81,9 @@ func (fr *frame) runDefer(d *deferred) {
 
 func (fr *frame) runDefers() {
 	for d := fr.defers; d != nil; d = d.tail {
+		if fr.m.seg != nil && fr.m.seg.isVisibleCallee(fr.m, d.fn) {
+			fr.m.visiblePoint(fr, "deferred "+describeFn(d.fn))
+		}
 		fr.defers = d.tail
 		fr.runDefer(d)
 	}
@@ -108,6 +113,15 @@ func (m *Machine) visitInstr(fr *frame, instr ssa.Instruction) continuation {
 	case *ssa.DebugRef:
 
 	case *ssa.UnOp:
+		if m.seg != nil {
+			if instr.Op == token.ARROW {
+				m.visiblePoint(fr, "chan recv")
+			} else if instr.Op == token.MUL {
+				if p, ok := fr.get(instr.X).(*value); ok && m.seg.racy[p] {
+					m.visiblePoint(fr, "racy load")
+				}
+			}
+		}
 		fr.env[instr] = m.unop(fr, instr, fr.get(instr.X))
 
 	case *ssa.BinOp:
@@ -115,6 +129,13 @@ func (m *Machine) visitInstr(fr *frame, instr ssa.Instruction) continuation {
 
 	case *ssa.Call:
 		fn, args := m.prepareCall(fr, &instr.Call)
+		if m.seg != nil {
+			if m.seg.isVisibleCallee(m, fn) {
+				m.visiblePoint(fr, "call "+describeFn(fn))
+			} else if b, ok := fn.(*ssa.Builtin); ok && b.Name() == "close" {
+				m.visiblePoint(fr, "close")
+			}
+		}
 		fr.env[instr] = m.call(fr, instr.Pos(), fn, args)
 
 	case *ssa.ChangeInterface:
@@ -160,6 +181,9 @@ func (m *Machine) visitInstr(fr *frame, instr ssa.Instruction) continuation {
 		panic(targetPanic{fr.get(instr.X)})
 
 	case *ssa.Send:
+		if m.seg != nil {
+			m.visiblePoint(fr, "chan send")
+		}
 		ch, _ := fr.get(instr.Chan).(*vchan)
 		m.chanSend(ch, fr.get(instr.X))
 
@@ -167,6 +191,13 @@ func (m *Machine) visitInstr(fr *frame, instr ssa.Instruction) continuation {
 		p := fr.get(instr.Addr).(*value)
 		if p == nil {
 			m.rtPanic("invalid memory address or nil pointer dereference")
+		}
+		if m.seg != nil {
+			if m.seg.racy[p] {
+				m.visiblePoint(fr, "racy store")
+			}
+			m.seg.storeCell(m, p, fr.get(instr.Val))
+			break
 		}
 		store(nil, p, fr.get(instr.Val))
 
@@ -200,6 +231,11 @@ func (m *Machine) visitInstr(fr *frame, instr ssa.Instruction) continuation {
 
 	case *ssa.Go:
 		fn, args := m.prepareCall(fr, &instr.Call)
+		if m.seg != nil {
+			m.visiblePoint(fr, "go")
+			m.seg.spawned = append(m.seg.spawned, spawnReq{fn: fn, args: args})
+			break
+		}
 		m.spawn(fn, args, instr.Pos())
 
 	case *ssa.MakeChan:
@@ -218,6 +254,9 @@ func (m *Machine) visitInstr(fr *frame, instr ssa.Instruction) continuation {
 			addr = fr.env[instr].(*value)
 		}
 		*addr = zero(deref(instr.Type()))
+		if m.seg != nil {
+			m.seg.markFresh(addr)
+		}
 
 	case *ssa.MakeSlice:
 		n := m.allocSize(fr.get(instr.Len), "make([]T, len)")
@@ -229,6 +268,9 @@ func (m *Machine) visitInstr(fr *frame, instr ssa.Instruction) continuation {
 		tElt := instr.Type().Underlying().(*types.Slice).Elem()
 		for i := range sl {
 			sl[i] = zero(tElt)
+			if m.seg != nil {
+				m.seg.markFresh(&sl[i])
+			}
 		}
 		fr.env[instr] = sl[:n]
 
@@ -295,7 +337,7 @@ func (m *Machine) visitInstr(fr *frame, instr ssa.Instruction) continuation {
 		m.omapSet(mm, fr.get(instr.Key), copyVal(fr.get(instr.Value)))
 
 	case *ssa.TypeAssert:
-		fr.env[instr] = m.typeAssert(instr, fr.get(instr.X).(iface))
+		fr.env[instr] = m.typeAssert(instr, m.resolveTok(fr.get(instr.X)).(iface))
 
 	case *ssa.MakeClosure:
 		var bindings []value
@@ -308,6 +350,9 @@ func (m *Machine) visitInstr(fr *frame, instr ssa.Instruction) continuation {
 		panic(engineFault{"phi reached"})
 
 	case *ssa.Select:
+		if m.seg != nil {
+			m.visiblePoint(fr, "select")
+		}
 		fr.env[instr] = m.doSelect(fr, instr)
 
 	default:
@@ -384,7 +429,7 @@ func (m *Machine) allocSize(v value, what string) int {
 }
 
 func (m *Machine) prepareCall(fr *frame, call *ssa.CallCommon) (fn value, args []value) {
-	v := fr.get(call.Value)
+	v := m.resolveTok(fr.get(call.Value))
 	if call.Method == nil {
 		fn = v
 	} else {
@@ -444,8 +489,18 @@ func (m *Machine) callSSA(caller *frame, callpos token.Pos, fn *ssa.Function, ar
 	if fr.depth > m.cfg.MaxDepth {
 		panic(pathEnd{"fatal", "stack overflow: call depth > " + fmt.Sprint(m.cfg.MaxDepth) + " in " + fn.String()})
 	}
+	if m.redirects != nil {
+		if r, ok := m.redirects[fn.String()]; ok {
+			m.out.Stubs["summary:"+fn.String()]++
+			return m.call(caller, callpos, r, args)
+		}
+	}
 	if ext := m.prog.lookupExternal(fn); ext != nil {
 		m.noteStub(fn)
+		if m.seg != nil && fn.Pkg != nil && fn.Pkg.Pkg.Path() == "sync/atomic" {
+			m.inAtomic = true
+			defer func() { m.inAtomic = false }()
+		}
 		return ext(fr, args)
 	}
 	if fn.Blocks == nil {
@@ -465,6 +520,9 @@ func (m *Machine) callSSA(caller *frame, callpos token.Pos, fn *ssa.Function, ar
 	for i, l := range fn.Locals {
 		fr.locals[i] = zero(deref(l.Type()))
 		fr.env[l] = &fr.locals[i]
+		if m.seg != nil {
+			m.seg.markFresh(&fr.locals[i])
+		}
 	}
 	for i, p := range fn.Params {
 		fr.env[p] = args[i]
@@ -532,8 +590,18 @@ func (m *Machine) runFrame(fr *frame) {
 	}()
 
 	for {
-		nonPhis := executePhis(fr)
-		for _, instr := range nonPhis {
+		var nonPhis []ssa.Instruction
+		base := 0
+		if fr.resumeAt > 0 {
+			base = fr.resumeAt - 1
+			nonPhis = fr.block.Instrs[base:]
+			fr.resumeAt = 0
+		} else {
+			nonPhis = executePhis(fr)
+			base = len(fr.block.Instrs) - len(nonPhis)
+		}
+		for k, instr := range nonPhis {
+			fr.idx = base + k
 			if m.visitInstr(fr, instr) == kReturn {
 				return
 			}
